@@ -27,7 +27,8 @@ def models(quick):
 def exact_in_sector(M, psi0):
     from tenpy.algorithms.exact_diag import ExactDiag
     q = psi0.get_total_charge(True)
-    ed = ExactDiag(M, charge_sector=q if M.lat.unit_cell[0].leg.chinfo.qnumber > 0 else None)
+    # (max_size: the default limit refers to the full Hilbert space and silently skips building H - the sector is much smaller)
+    ed = ExactDiag(M, charge_sector=q if M.lat.unit_cell[0].leg.chinfo.qnumber > 0 else None, max_size=5.e8)
     ed.build_full_H_from_mpo()
     ed.full_diagonalization()
     E0, v0 = ed.groundstate()
@@ -66,7 +67,12 @@ def run(rec):
                         inp = {'model': mname, 'engine': ename, 'mixer': str(mixer), 'diag_method': dm, 'chi_max': chi}
                         psi = psi_init.copy()
                         rec.begin(f'C13 {inp}')
-                        ok, res = rec.guarded(f'{ename}:exception', lambda: Eng(psi, M, opts).run(), inp)
+                        holder = {}
+
+                        def run_engine():
+                            holder['eng'] = Eng(psi, M, opts)
+                            return holder['eng'].run()
+                        ok, res = rec.guarded(f'{ename}:exception', run_engine, inp)
                         rec.case((mname, ename, str(mixer), dm, chi), L >= 4, sample=inp if chi == 100 and mixer is True and dm == 'default' else None)
                         if not ok:
                             continue
@@ -76,7 +82,11 @@ def run(rec):
                         rec.check(np.array_equal(psi_out.get_total_charge(True), psi_init.get_total_charge(True)), f'{ename}:charge-sector',
                                   f'{psi_out.get_total_charge(True)} vs {psi_init.get_total_charge(True)}', inp)
                         EH = M.H_MPO.expectation_value(psi_out)
-                        rec.check(abs(E - EH) < 1e-8 if chi == 100 else abs(E - EH) < 1e-5, f'{ename}:E-not-expectation-value', f'E={E}, <H>={EH}', inp)
+                        # "agrees with the expectation value ... up to the reported truncation": the engine reports the largest energy change
+                        # caused by a truncation in the last sweep (sweep_stats['max_E_trunc']); E is taken before, <H> after the truncation
+                        E_trunc = abs(float(holder['eng'].sweep_stats['max_E_trunc'][-1])) if holder['eng'].sweep_stats['max_E_trunc'] else 0.
+                        tolE = 1e-8 if chi == 100 else max(1e-5, 2. * E_trunc)
+                        rec.check(abs(E - EH) < tolE, f'{ename}:E-not-expectation-value', f'E={E}, <H>={EH}, reported max_E_trunc {E_trunc}', inp)
                         rec.check(EH >= E_exact - 1e-9, f'{ename}:E-below-exact', f'<H>={EH} < exact {E_exact}', inp)
                         if chi == 100 and ename == 'TwoSiteDMRGEngine' and mixer is not None:
                             rec.check(abs(E - E_exact) < 1e-8, f'{ename}:not-exact-untruncated', f'E={E}, exact {E_exact}', inp)
